@@ -470,6 +470,7 @@ type c19Ref struct {
 }
 
 var c19refCache = map[string]*c19Ref{}
+var c19keyCount = map[string]int{}
 
 func c19reference(src string, prelude, main string) *c19Ref {
 	if r := c19refCache[src]; r != nil {
@@ -500,6 +501,13 @@ func c19exec(op string) Result {
 	r := Result{Tags: []string{"kind-" + f[1]}}
 	viol := func(key, format string, a ...interface{}) {
 		if r.Viol == "" {
+			// the harness keeps the first 50 violations of a run only: report at most 5 per key, so that a
+			// frequent (known) key cannot crowd out a different one; the rest is counted under the tag "more-<key>"
+			c19keyCount[key]++
+			if c19keyCount[key] > 5 {
+				r.Tags = append(r.Tags, "more-"+key)
+				return
+			}
 			r.Key, r.Viol = key, fmt.Sprintf(format, a...)
 			if os.Getenv("C19_LOG") != "" {
 				fmt.Fprintf(os.Stderr, "C19VIOL %s | %s | %s\n", key, r.Viol, op)
@@ -716,7 +724,13 @@ func c19exec(op string) Result {
 		case i >= len(doc):
 			why = fmt.Sprintf("undocumented stop #%d at %s", i, stops[i].ev.where())
 		case stops[i].idx != doc[i].idx || stops[i].isBp != doc[i].isBp:
-			why = fmt.Sprintf("stop #%d is at trace index %d (%s), documented: index %d (%s)", i, stops[i].idx, stops[i].ev.where(), doc[i].idx, tr[doc[i].idx].where())
+			kindOf := func(b bool) string {
+				if b {
+					return "Breakpoint"
+				}
+				return "At"
+			}
+			why = fmt.Sprintf("stop #%d is %s at trace index %d (%s), documented: %s at index %d (%s)", i, kindOf(stops[i].isBp), stops[i].idx, stops[i].ev.where(), kindOf(doc[i].isBp), doc[i].idx, tr[doc[i].idx].where())
 		case stops[i].used1 != doc[i].used1:
 			why = fmt.Sprintf("stop #%d consumed script lines up to %d, documented command language: %d", i, stops[i].used1, doc[i].used1)
 			viol("command-language", "%s", why)
